@@ -6,7 +6,7 @@ import contracts.standins_copy as B
 import contracts.standins_storage as BS
 import contracts.copying as CY
 
-PROVED = [ST.read_and_format, ST.read_format_split, ST.save_from, ST.saver_save, CH.chunk_split,
+PROVED = [ST.read_and_format, ST.read_format_split, ST.get_splits, ST.save_from, ST.saver_save, CH.chunk_split,
           CY.copy_to_frontend, CY.merge_per_chunk, CY.dry_load_files]
 
 PROPERTY = Property(
@@ -20,8 +20,9 @@ PROPERTY = Property(
     assumptions=["copy_to_frontend / merge_per_chunk_storage / dry_load_files are under contract for their DECISIONS only (one fresh "
                  "loader per target, the key the merged data is filed under, which chunks are read); the data path itself, the "
                  "stand-alone rechunker (mailboxes, thread / process pools), "
-                 "_read_format_split_chunk (rechunk on load via Rechunker.get_splits), the Rechunker and the codecs are NOT proved: "
-                 "bounded stand-in on the real code",
+                 "the codecs are NOT proved: bounded stand-in on the real code",
+                 "library models used by the proof of Rechunker.get_splits: np.argwhere(mask).flatten() = ascending indices of the true "
+                 "entries, Vec.argmin, np.array(list); target sizes are non-negative",
                  "the backend's _read_chunk is abstract (any rows, may fail)"],
     explanation="copy_to_frontend gives every target frontend a loader of its own, asks the target for a WRITE location under the "
                 "source's key and rechunks exactly when asked; merge_per_chunk_storage files the merged data under the key of the "
